@@ -931,12 +931,15 @@ func (s *suGen) genSub(id string) {
 		pn = "1"
 	}
 	acl := "-"
+	var denied []string // targets this caller's ACL denies
 	switch x := r.Intn(10); {
 	case x < 3:
 		var al []string
 		for _, t := range g.targets {
 			if r.Intn(3) != 0 {
 				al = append(al, encStr(t))
+			} else {
+				denied = append(denied, t)
 			}
 		}
 		acl = "a=" + strings.Join(al, ",")
@@ -951,12 +954,20 @@ func (s *suGen) genSub(id string) {
 		// place a cache write in the registration/walk window of this subscription
 		saved := s.g.seq
 		s.g.seq = nil
+		savedTargets := s.g.targets
+		if len(denied) > 0 && r.Intn(2) == 0 {
+			// the write in the window goes to a target the subscriber's ACL denies: whatever reaches the
+			// subscriber's queue between its registration and the sync marker is subject to the ACL like
+			// everything else (seeded change c07_seed8 checked only what is sent after the marker)
+			s.g.targets = denied
+		}
 		for len(s.g.seq) == 0 || !strings.HasPrefix(s.g.seq[0], "upd ") && !strings.HasPrefix(s.g.seq[0], "reset ") {
 			s.g.seq = nil
 			s.g.step()
 		}
 		op := s.g.seq[0]
 		s.g.seq = saved
+		s.g.targets = savedTargets
 		if r.Intn(12) == 0 && target != "*" && target != "" && target != "zz" {
 			// the subscription's own target is removed in the window (and usually added again later)
 			op = fmt.Sprintf("remove %s %d", encStr(target), g.tick())
